@@ -4,12 +4,6 @@ namespace Uflow.Driver
 
 open Uflow.Codec
 
-/-- Flips bit `p % 8` of byte `p / 8`. -/
-def flipBit (bs : List Nat) (p : Nat) : List Nat :=
-  match bs[p / 8]? with
-  | some b => bs.set (p / 8) (b ^^^ 2 ^ (p % 8))
-  | none => bs
-
 /-- mode `codec`: enc <frame> | dec <hex> | crc <hex> | size <datagram> -/
 def codecOp (toks : List String) : String :=
   match toks with
